@@ -637,6 +637,8 @@ def rule_sigops(ctx, repo, eng):
     fi = repo.lookup_method(ci, 'GetSigOpCount')
     facc = fi.params[1]
     loops = [n for n in ast.walk(fi.node) if isinstance(n, ast.For) and 'raw_iter()' in norm(n.iter)]
+    loops = [n for n in loops if not isinstance(n.iter, (ast.ListComp, ast.GeneratorExp)) and not (isinstance(n.iter, ast.Call) and norm(n.iter.func) in ('list', 'tuple', 'zip', 'sorted', 'enumerate')
+                                                                                                   and any(isinstance(a_, (ast.ListComp, ast.List, ast.BinOp)) for a_ in n.iter.args))]
     if len(loops) != 1:
         mat = [n for n in ast.walk(fi.node) if isinstance(n, (ast.ListComp, ast.GeneratorExp)) and any('raw_iter()' in norm(g.iter) for g in n.generators)]
         mat = [n for n in mat if isinstance(n, ast.ListComp) or (isinstance(getattr(n, '_parent', None), ast.Call) and norm(n._parent.func) in ('list', 'tuple', 'sorted'))]
@@ -647,6 +649,9 @@ def rule_sigops(ctx, repo, eng):
         r.undecided('loop', fi.site, 'loop over raw_iter() not found')
         return
     lp = loops[0]
+    if not (isinstance(lp.target, ast.Tuple) and len(lp.target.elts) >= 2):
+        r.undecided('loop', common.site_of(fi, lp), 'the loop over raw_iter() binds `%s`' % norm(lp.target))
+        return
     opv = norm(lp.target.elts[0])
     datav = norm(lp.target.elts[1]) if len(lp.target.elts) > 1 and isinstance(lp.target.elts[1], ast.Name) else None
     # the last-opcode variable: assigned `= opv` at the end of the body
